@@ -397,7 +397,13 @@ def judge_case(case) -> List[Dict[str, str]]:
                     f"{kind}({op['v']!r:.60}) raised {raised} but emitted {info['events']!r:.80}", i)
         # (1) stored / reported / notified / callback values conform to the declared constraints
         if not ref.consistent(props):
-            return  # no conforming value exists for an inconsistent set (generator avoids them)
+            if i == -1 and case.get("def") is not None:
+                # a shipped definition whose declared set admits no conforming value at all
+                shown = {k: props[k] for k in ("Format", "minValue", "maxValue", "minStep", "ValidValues", "maxLen") if k in props}
+                bad("C09:shipped-definition-inconsistent",
+                    f"the declared constraints {shown!r:.200} admit no conforming value, so the stored value "
+                    f"{info['stored']!r:.40} cannot satisfy them", i)
+            return  # no conforming value exists for an inconsistent set (the generator avoids them)
         after_raising_override = bool(raised) and kind == "override"
         seen = [("notified" if k == "notify" else "callback-argument", v) for k, v in info["events"]]
         seen.append(("stored", info["stored"]))
@@ -740,11 +746,11 @@ def gen_cases(ctx: Ctx, thorough_size=False) -> List[Dict[str, Any]]:
     for name, d in defs.items():
         props = {k: v for k, v in d.items() if k != "UUID"}
         cases += boundary_scripts(name, props, rng)
-        for _ in range(3 if quick else 40):
+        for _ in range(5 if quick else 250):
             cfg = {"allowInvalid": rng.random() < 0.15, "hasSetter": rng.random() < 0.8}
             cases.append({"def": name, "cfg": cfg, "ops": gen_ops(rng, props, rng.randint(1, 12))})
     cases += shape_scripts()
-    for _ in range(250 if quick else 6000):
+    for _ in range(500 if quick else 50000):
         p = random_props(rng)
         cfg = {"allowInvalid": rng.random() < 0.15, "hasSetter": rng.random() < 0.8}
         cases.append({"def": None, "props": p, "always_null": rng.random() < 0.1, "cfg": cfg,
@@ -808,9 +814,38 @@ def run(ctx: Ctx):
     lines, impls = [], []
     cons_lines, cons_want = [], []
     step_exn_seen = set()
+    judged: Dict[str, Any] = {}
+    judge_cap = ctx.n(6000, 40000)
+
     for case in cases:
         fails = oracle(ctx, case)
-        trace, sr, an = run_impl(case)
+        allow = case["cfg"]["allowInvalid"]
+
+        def collect(info, allow=allow):
+            # (property set, value) pairs seen on the real object: the model's `consistent` / `conf`
+            # predicates (what the theorems talk about) are compared with the oracle's on them
+            if len(judged) >= judge_cap:
+                return
+            vals = [info["stored"]] + [v for _, v in info["events"]]
+            try:
+                pj = enc_props(info["props"])
+            except Exception:  # noqa: BLE001
+                return
+            for v in vals:
+                key = repr((pj, info["always_null"], allow, enc(v)))
+                if key not in judged:
+                    judged[key] = (
+                        {"layer": "char", "op": "judge", "props": pj, "v": enc(v),
+                         "cfg": {"alwaysNull": info["always_null"], "allowInvalid": allow, "hasSetter": True}},
+                        {"consistent": ref.consistent(info["props"]),
+                         "conf": ref.nonconformity(info["props"], info["always_null"], allow, v) is None},
+                    )
+
+        trace, sr, an = run_impl(case, collect)
+        # raw (unvalidated) pool values against the declared set: exercises the refusing side of `conf`
+        p0 = case.get("props") or {k: v for k, v in _defs()[case["def"]].items() if k != "UUID"}
+        for v in ctx.rng.sample(COMMON_POOL, 3) + ctx.rng.sample(value_pool(p0), 3):
+            collect({"stored": v, "events": [], "props": p0, "always_null": an})
         impls.append(trace)
         lines.append(model_line(case, sr, an))
         for _, _, res in sr.values():
@@ -860,6 +895,9 @@ def run(ctx: Ctx):
     if bad_step:
         ctx.disagree("step-rounding-exception-class", sorted(bad_step), "ValueError|OverflowError", sorted(step_exn_seen))
 
+    for ln, want in judged.values():
+        cons_lines.append(ln)
+        cons_want.append(want)
     model = run_model_parallel("C09", lines + cons_lines, workers=12)
     for case, ln, m, i in zip(cases, lines, model[: len(lines)], impls):
         st.traces_validated += 1
@@ -872,14 +910,17 @@ def run(ctx: Ctx):
                                          "replay": case_to_replay(case)}, _short(detail_m), _short(detail_i))
     for ln, m, w in zip(cons_lines, model[len(lines) :], cons_want):
         st.traces_validated += 1
+        if "conf" in w and not w["consistent"]:
+            m = dict(m, conf=w["conf"])  # conformance is only compared on consistent sets
         if m != w:
-            ctx.disagree("consistent", ln["props"], m, w)
+            ctx.disagree("predicates", {"props": ln["props"], "cfg": ln.get("cfg"), "v": ln.get("v")}, m, w)
 
     for idx in (0, len(cases) // 2, len(cases) - 1):
         c = cases[idx]
         st.sample({"definition": c.get("def") or c.get("props"), "cfg": c["cfg"],
                    "ops": [_short(op_to_json(o), 120) for o in c["ops"][:4]],
                    "impl": _short(impls[idx]["steps"][:4], 500), "model_agrees": model[idx] == impls[idx]})
+    st.notes.append(f"{len(judged)} (property set, value) pairs: model consistent/conf vs oracle")
     st.notes.append(f"{len(cases)} scripts, {sum(len(c['ops']) for c in cases)} ops; "
                     f"step-rounding exception classes seen: {sorted(step_exn_seen)}")
 
